@@ -127,7 +127,13 @@ func cases() []expect {
 			var wg sync.WaitGroup
 			wg.Add(2)
 			go func() { defer wg.Done(); <-c; _ = x; a = "a" }()
-			go func() { defer wg.Done(); _, ok := <-c; if !ok { b = "b" } }()
+			go func() {
+				defer wg.Done()
+				_, ok := <-c
+				if !ok {
+					b = "b"
+				}
+			}()
 			x = 1
 			close(c)
 			wg.Wait()
@@ -315,7 +321,7 @@ func Run() *Result {
 		raced, clean := 0, 0
 		dead, pan := 0, 0
 		c := c
-		st := vsched.Explore(vsched.ExploreConfig{MaxBound: c.bound, Prune: false, Run: func(s vsched.Strategy) (*vsched.Result, string, string) {
+		st := vsched.Explore(vsched.ExploreConfig{MaxBound: c.bound, Prune: false, Run: func(s vsched.Strategy) (*vsched.Result, string, string, string) {
 			out := ""
 			r := vsched.Run(vsched.Options{Strategy: s, Horizon: c.horizon, TrackHB: true}, func() { c.body(&out) })
 			if r.Races > 0 {
@@ -335,14 +341,14 @@ func Run() *Result {
 				out = "STEPLIMIT"
 			}
 			outs[out] = true
-			return r, out, ""
+			return r, out, "", ""
 		}})
 		res.Executions += st.Executions
 		fail := func(f string, a ...any) {
 			res.Failed = append(res.Failed, c.name+": "+fmt.Sprintf(f, a...))
 		}
-		if st.Violation != nil {
-			fail("explorer: %s", st.Violation.Message)
+		for _, v := range st.Violations {
+			fail("explorer: %s", v.Message)
 		}
 		if vsched.RaceEnabled {
 			// the race detector reports each distinct pair of stacks once per process, so
